@@ -21,7 +21,7 @@ LTL_OK = {'not', 'and', 'or', 'implies', 'iff', 'xor', 'prev', 's_prev', 'next',
           'rise', 'fall', 'abs', 'add', 'sub', 'mul', 'leq', 'lt', 'geq', 'gt', 'eq', 'neq'}
 
 
-def _make(kind, spec_text, vs, period=None, unit=None):
+def _make(kind, spec_text, vs, period=None, unit=None, twice=False):
     if kind == 'ltl':
         from rtamt.spec.abstract_specification import AbstractOnlineSpecification
         from rtamt.syntax.ast.parser.ltl.specification_parser import LtlAst
@@ -34,7 +34,7 @@ def _make(kind, spec_text, vs, period=None, unit=None):
         s.parse()
         s.pastify()
         return s
-    return dt.make_spec(kind, spec_text, vs, pastify=True, period=period, unit=unit)
+    return dt.make_spec(kind, spec_text, vs, pastify=('twice' if twice else True), period=period, unit=unit)
 
 
 def past_reach(f):
@@ -59,7 +59,7 @@ def past_reach(f):
     return sub
 
 
-def h_delay(f, N, kind='combined', period=None, unit=None, txt=None, resets=0, defs=None):
+def h_delay(f, N, kind='combined', period=None, unit=None, txt=None, resets=0, defs=None, twice=False):
     """f: formula in SAMPLES (oracle); txt: concrete text if it differs from text(f) (unit spellings);
     defs: named sub-formulas defined by earlier assertions of the same text (f then refers to them by name; the oracle inlines them)"""
     f = T(f)
@@ -75,7 +75,7 @@ def h_delay(f, N, kind='combined', period=None, unit=None, txt=None, resets=0, d
 
     def body(env):
         A = env.A
-        s = _make(kind, full_text or ('out = ' + (txt or text(f))), vs, period, unit)
+        s = _make(kind, full_text or ('out = ' + (txt or text(f))), vs, period, unit, twice)
         for r in range(resets):
             # the same monitor object was used on other traces before and reset() each time
             w0 = dt.trace(env, vs, 2 + r, prefix='r%d_' % r)
@@ -307,6 +307,11 @@ def obligations(tier, rng):
               ('until_t', X, ('since', Y, X), 0, 1), ('and', ('next', X), ('rise', Y)), ('always_t', ('once_t', X, 0, 1), 1, 2), ('or', ('next', ('prev', X)), ('s_prev', Y))]:
         for r in (1, 2, 3):
             out.append(ob('C03', 'delay', 'reused/%s/resets=%d' % (text(f), r), f=f, N=hor(f) + 3, resets=r))
+    # pastify() called TWICE: the second call finds a specification without future operators and must leave it as it is
+    for f in [('eventually_t', X, 0, 2), ('always_t', X, 1, 2), ('until_t', X, Y, 1, 2), ('unless_t', X, Y, 0, 1), ('and', ('next', X), Y), ('or', ('until_t', X, Y, 0, 1), ('once_t', Z, 0, 1)),
+              ('eventually_t', ('until_t', X, Y, 0, 1), 0, 1), ('implies', ('geq', X, ('const', 0.0)), ('eventually_t', ('geq', Y, ('const', 0.0)), 1, 2)), ('since_t', X, Y, 0, 2)]:
+        h = hor(f)
+        out.append(ob('C03', 'delay', 'pastify-twice/%s/N=%d' % (text(f), h + 3), f=f, N=h + 3, twice=True))
     for f, txt, period, unit in UNIT_CASES:
         h = hor(f)
         out.append(ob('C03', 'delay', 'units/%s/p=%s' % (txt, period), f=f, N=h + 3, txt=txt, period=period, unit=unit))
